@@ -552,6 +552,50 @@ func (c *Ctx) helperResultEntails(h *types.Func, want bool, cls func(info *types
 	return nret > 0
 }
 
+// helperNonNilEntails: h is a selecting helper of this module with a single pointer result
+// (`findBinding(list, err) *LVal`); whenever it returns something other than the nil literal, goal
+// holds — every such return is unreachable without crossing an edge of h that entails goal.
+func (c *Ctx) helperNonNilEntails(h *types.Func, cls func(info *types.Info) func(e ast.Expr) (string, bool), goal func(v map[string]bool) bool) bool {
+	fd := c.declOf[h]
+	if fd == nil || fd.Body == nil {
+		return false
+	}
+	sig := h.Type().(*types.Signature)
+	if sig.Results().Len() != 1 {
+		return false
+	}
+	if _, ok := sig.Results().At(0).Type().Underlying().(*types.Pointer); !ok {
+		return false
+	}
+	pkg := c.pkgOf[fd]
+	info := pkg.TypesInfo
+	fc := c.cfgOf(FuncUnit{h, fd, pkg}, nil)
+	cut := fc.edgesEntailing(cls(info), goal)
+	nret := 0
+	for _, b := range fc.G.Blocks {
+		if !fc.Live(b) {
+			continue
+		}
+		for _, n := range b.Nodes {
+			rs, ok := n.(*ast.ReturnStmt)
+			if !ok {
+				continue
+			}
+			if len(rs.Results) != 1 {
+				return false
+			}
+			if isNilIdent(info, rs.Results[0]) {
+				continue
+			}
+			nret++
+			if fc.reachableAvoiding(b, cut) {
+				return false
+			}
+		}
+	}
+	return nret > 0
+}
+
 // boundParam: in a call h(args...), the parameter of h that receives the
 // caller's object o as a plain identifier argument (nil if none).
 func boundParam(info *types.Info, ce *ast.CallExpr, h *types.Func, o types.Object) types.Object {
